@@ -183,6 +183,8 @@ pub fn worker(check: &dyn Check, tier: Tier, seed: u64, slot: u32, of: u32, runs
     let mut all: BTreeSet<u64> = BTreeSet::new();
     let mut states: BTreeSet<u64> = BTreeSet::new();
     let mut sigs: BTreeSet<String> = BTreeSet::new();
+    let known = load_known_findings();
+    let (mut known_kept, mut unknown_kept) = (0usize, 0usize);
     let mut r = slot as u64;
     while r < runs {
         if start.elapsed() > Duration::from_secs(secs) {
@@ -210,13 +212,18 @@ pub fn worker(check: &dyn Check, tier: Tier, seed: u64, slot: u32, of: u32, runs
         match outcome {
             Outcome::Ok => {}
             Outcome::Violation(v) => {
-                if sigs.insert(v.signature.clone()) && res.violations.len() < 8 {
-                    res.violations.push(FoundViolation {
-                        run_index: r,
-                        run_seed,
-                        scenario,
-                        violation: v,
-                    });
+                let is_known = known.iter().any(|k| k.property == check.id() && k.status == "open" && sig_matches(&k.signature, &v.signature));
+                if sigs.insert(v.signature.clone()) {
+                    // listed findings never crowd out an unlisted violation
+                    if is_known {
+                        if known_kept < 8 {
+                            known_kept += 1;
+                            res.violations.push(FoundViolation { run_index: r, run_seed, scenario, violation: v });
+                        }
+                    } else if unknown_kept < 8 {
+                        unknown_kept += 1;
+                        res.violations.push(FoundViolation { run_index: r, run_seed, scenario, violation: v });
+                    }
                 }
                 *res.counters.entry("violating_runs".into()).or_insert(0) += 1;
             }
@@ -311,7 +318,9 @@ fn minimise(check: &dyn Check, found: &FoundViolation, env: &Env, deadline: Inst
                 break;
             }
             if let Outcome::Violation(v) = exec_once(check, &cand, env) {
-                if v.class == best_v.class {
+                // same specific signature, so a reduction can never drift from an unlisted
+                // violation into a listed finding of the same class
+                if v.signature == best_v.signature {
                     best = cand;
                     best_v = v;
                     progress = true;
@@ -456,7 +465,7 @@ pub fn run_check(check: &dyn Check, args: &CheckArgs) -> i32 {
         let scenario = {
             let c = check.concretize(&scenario, &env);
             match exec_once(check, &c, &env) {
-                Outcome::Violation(v) if v.class == violation.class => c,
+                Outcome::Violation(v) if v.signature == violation.signature => c,
                 _ => scenario,
             }
         };
